@@ -219,7 +219,8 @@ class Contracts:
         lines = []
         for name, ds, c, r in alldiffs:
             for p, a, b in ds[:4]:
-                lines.append(f"[{name or 'all'}] at {p or '/'}: code `{T.show(a)[:300]}` ≠ reference `{T.show(b)[:300]}`")
+                ln = _locate(cfi, a)
+                lines.append(f"[{name or 'all'}] at {p or '/'}{' (≈ line ' + str(ln) + ')' if ln else ''}: code `{T.show(a)[:300]}` ≠ reference `{T.show(b)[:300]}`")
         key = f"E2.equiv:{qualname}{'/' + variant if variant else ''}:{dig}"
         if inconclusive:
             return Result("inconclusive", "construct outside the decidable fragment: " +
@@ -231,3 +232,25 @@ class Contracts:
 
 class ParamMismatch(Exception):
     pass
+
+
+def _locate(fi, sub):
+    """best-effort source line of the construct a deviating sub-term came from (token overlap with the function's AST nodes)"""
+    import re
+    want = set(re.findall(r"[A-Za-z_][A-Za-z_0-9]*|-?\d+", T.show(sub))) - {"bv0", "v1", "v2", "lam"}
+    if len(want) < 3 or len(T.show(sub)) > 4000:
+        return None
+    best, score = None, 0.0
+    for n in ast.walk(fi.node):
+        if not isinstance(n, (ast.expr, ast.stmt)) or not hasattr(n, "lineno") or n is fi.node:
+            continue
+        try:
+            toks = set(re.findall(r"[A-Za-z_][A-Za-z_0-9]*|-?\d+", ast.unparse(n)))
+        except Exception:
+            continue
+        if not toks:
+            continue
+        j = len(want & toks) / len(want | toks)
+        if j > score:
+            best, score = n, j
+    return best.lineno if best is not None and score >= 0.3 else None
